@@ -1,5 +1,73 @@
-(* C16 — placeholder while the proofs are being written *)
+(* C16 — invalid arguments are refused without side effects; legacy and isal_ APIs agree.
+   Only statements, each closed by an already-proved lemma (Proofs/MiniCVerdicts.v, whose
+   obligations run the verified checker of Model/MiniCCheck.v on the wrapper bodies
+   regenerated from the current tree, Gen/WrappersGen.v = -DSAFE_PARAM, no FIPS_MODE).
+
+   Reading guide.  `run table w d` is the big-step result (return value, trace of reads /
+   writes / internal calls) of the translated body d in the world w; a world assigns a value
+   to every argument (KArg i; pointers: 0 = NULL) and to every other observation.  All
+   theorems quantify over ALL worlds: every NULL / non-NULL combination, every scalar value.
+   specs (Spec/WrapperSpec.v) says per entry point when a parameter must / may be refused and
+   with which documented codes.  known16 lists the entry points with a confirmed, reported
+   defect (fixes/): the theorems cover every other entry point. *)
 From Coq Require Import NArith List.
-From ISAL Require Import Model.MiniC Model.MiniCCheck Model.MiniCInst.
-Example C16_placeholder : spec_covers = true.
-Proof. vm_compute. reflexivity. Qed.
+From ISAL Require Import Model.MiniC Model.MiniCCheck Model.MiniCInst Gen.WrappersGen Spec.WrapperSpec
+  Proofs.MiniCSound Proofs.MiniCVerdicts.
+Import ListNotations.
+
+(* every isal_ symbol exported by the built library has exactly one specification row *)
+Theorem C16_every_entry_specified : covers specs entries = true.
+Proof. exact verdict_covers. Qed.
+Print Assumptions C16_every_entry_specified.
+
+(* an argument that must be refused (missing required pointer, out-of-domain length / tag
+   length / window): the call returns a non-zero code documented for an offending parameter
+   and its trace contains no read, no write and no call — whatever the other arguments are *)
+Theorem C16_offending_refused : forall (e : espec) (d : fundef) (w : world),
+  In e specs -> listed known16 e = false -> is_neutral e = false ->
+  ftab_get WrappersGen.table (e_id e) = Some d ->
+  must_refuse w e -> refusal e w (run WrappersGen.table w d).
+Proof. intros e d w He Hk Hn Hd. exact (f16_refuses e He d Hd Hk Hn w). Qed.
+Print Assumptions C16_offending_refused.
+
+(* every argument inside the documented domain: exactly one internal call with the arguments
+   passed through unchanged and the documented result (0; or the internal function's result;
+   or for hash submit the mapping of the handed-back context's error) *)
+Theorem C16_in_domain_served : forall (e : espec) (d : fundef) (w : world),
+  In e specs -> listed known16 e = false -> is_neutral e = false ->
+  ftab_get WrappersGen.table (e_id e) = Some d ->
+  ~ may_refuse w e -> ~ must_refuse w e -> service e w (run WrappersGen.table w d).
+Proof. intros e d w He Hk Hn Hd. exact (f16_serves e He d Hd Hk Hn w). Qed.
+Print Assumptions C16_in_domain_served.
+
+(* in every world the call is either refused that way or served that way: no third behaviour *)
+Theorem C16_refused_or_served : forall (e : espec) (d : fundef) (w : world),
+  In e specs -> listed known16 e = false -> is_neutral e = false ->
+  ftab_get WrappersGen.table (e_id e) = Some d ->
+  refusal e w (run WrappersGen.table w d) \/ service e w (run WrappersGen.table w d).
+Proof. intros e d w He Hk Hn Hd. exact (f16_total e He d Hd Hk Hn w). Qed.
+Print Assumptions C16_refused_or_served.
+
+(* each deprecated entry point takes no decision at all: it is a single call of the same
+   internal symbol its isal_ counterpart reaches, with its own arguments passed through in
+   order (no entry point is excluded here) *)
+Theorem C16_legacy_same_call : forall (e : espec) (l : N),
+  In e specs -> In l (e_legacy e) -> sh_inline (e_shape e) = false ->
+  exists d r, ftab_get WrappersGen.table l = Some d /\
+    entry_tree WrappersGen.table d = Leaf r [EvCall (sh_callee (e_shape e)) (arg_keys 0 (f_params d))] /\
+    length (f_params d) = length (sh_args (e_shape e)).
+Proof. intros e l He. exact (f16_legacy e He l). Qed.
+Print Assumptions C16_legacy_same_call.
+
+(* non-vacuity: isal_aes_gcm_enc_128 with in = NULL and len = 16 meets the hypotheses of
+   C16_offending_refused and returns ISAL_CRYPTO_ERR_NULL_SRC with an empty trace; with valid
+   arguments it meets those of C16_in_domain_served and reaches _aes_gcm_enc_128 *)
+Example C16_nonvacuous :
+  In e_gcm specs /\ listed known16 e_gcm = false /\ is_neutral e_gcm = false /\
+  ftab_get WrappersGen.table (e_id e_gcm) = Some WrappersGen.fn_isal_aes_gcm_enc_128 /\
+  must_refuse w_null_src e_gcm /\
+  run WrappersGen.table w_null_src WrappersGen.fn_isal_aes_gcm_enc_128 = Leaf (Some (SConst NULL_SRC)) [] /\
+  ~ may_refuse w_good e_gcm /\
+  run WrappersGen.table w_good WrappersGen.fn_isal_aes_gcm_enc_128 =
+    Leaf (Some (SConst 0)) [EvCall id_u_aes_gcm_enc_128 (map arg [0;1;2;3;4;5;6;7;8;9])]%N.
+Proof. exact nonvac16. Qed.
